@@ -142,7 +142,7 @@ def build_aggregate(cx, nmol=2, mult=1, with_bath=True, coupling=0.01, energies=
     return agg
 
 
-def spectral_hamiltonian(cx, n, block=None, tag="H", handler_kw=None, planes=None):
+def spectral_hamiltonian(cx, n, block=None, tag="H", handler_kw=None, planes=None, w_values=None):
     """real symmetric n x n matrix given by its eigen-decomposition H = S diag(w) S^T
     (all such matrices, by the spectral theorem).  Symbolic mode: registered with the eigh
     stub.  Replay mode: rebuilt with floats from the model's rotation parameters."""
@@ -153,7 +153,8 @@ def spectral_hamiltonian(cx, n, block=None, tag="H", handler_kw=None, planes=Non
         if h is None:
             h = linalg.use_eigh(**(handler_kw or dict(eigen_equation=True, block=block, signs=False)))
         H, w, S = linalg.spectral_symmetric(h, n, block=block, tag=tag,
-                                            planes=[tuple(p) for p in planes] if planes else None)
+                                            planes=[tuple(p) for p in planes] if planes else None,
+                                            w_values=w_values)
         return H, w, S
     S = numpy.eye(n)
     k = 0
@@ -171,12 +172,15 @@ def spectral_hamiltonian(cx, n, block=None, tag="H", handler_kw=None, planes=Non
                 G[i, j], G[j, i] = -s_, s_
                 S = S @ G
                 k += 1
-    w = numpy.array([cx.real("%s.w%d" % (tag, i), 0.0, 1.0) for i in range(n)])
-    order = [i for blk in blocks for i in blk]
-    ws = numpy.sort(w)
-    w2 = w.copy()
-    for pos, i in enumerate(order):
-        w2[i] = ws[pos]
+    if w_values is not None:
+        w2 = numpy.array([float(x) for x in w_values])
+    else:
+        w = numpy.array([cx.real("%s.w%d" % (tag, i), 0.0, 1.0) for i in range(n)])
+        order = [i for blk in blocks for i in blk]
+        ws = numpy.sort(w)
+        w2 = w.copy()
+        for pos, i in enumerate(order):
+            w2[i] = ws[pos]
     H = (S * w2[None, :]) @ S.T
     H = (H + H.T) / 2
     return H, w2, S
